@@ -9,6 +9,8 @@ DenotInvariant has verified (TLC, exact on the grid family) that the presented t
 program as the base presentation.  Each rewrite sends the same mathematics through another code path:
 
   side written entry-wise (x[i], z[k]: VarSub / RandVarSub operators)  vs  with matrix products (Vars @)
+  a <= b (decision terms left, the rest right: comparison of two expressions)  vs  a - b <= 0
+  constant term last  vs  first (number + expr, number - expr: __radd__ / __rsub__)
   number op expression / ndarray op expression (reflected operators)   vs  expression op number
   -(expr) (unary minus of Affine / RoAffine)                           vs  expr
   k * expr  (Affine.__rmul__) on both sides                            vs  expr
@@ -34,52 +36,57 @@ def _has_vars(tm):
     return bool(any(tm['a']) or any(any(r) for r in tm['A']) or tm['c'] or any(tm['B']))
 
 
-def side_loop(tm, h):
-    """Entry-wise spelling of one side: sums of coef * x[i], (coef * z[k]) * x[i], coef * y, coef * z[k],
-    a coefficient 1 is not written.  A side without variables is the plain number."""
+def side_loop(tm, h, cfirst=False):
+    """Entry-wise spelling of one side: a sum of coef * x[i], (coef * z[k]) * x[i], coef * y, coef * z[k];
+    a coefficient +1 / -1 is written as + term / - term; the constant is the last term, or the first one
+    (number + expression / number - expression).  A side without variables is the plain number."""
     x, y, z = h['x'], h['y'], h['z']
-    e = None
-
-    def add(e, t):
-        return t if e is None else e + t
-
+    terms = []
     for i in range(2):
         c = tm['a'][i]
         if c:
-            e = add(e, x[i] if c == 1 else c * x[i])
+            terms.append((c, lambda c=c, i=i: x[i], lambda c=c, i=i: c * x[i]))
         for k in range(2):
             c = tm['A'][i][k]
             if c:
-                e = add(e, z[k] * x[i] if c == 1 else (c * z[k]) * x[i])
+                terms.append((c, lambda i=i, k=k: z[k] * x[i], lambda c=c, i=i, k=k: (c * z[k]) * x[i]))
     if tm['c']:
-        e = add(e, y if tm['c'] == 1 else tm['c'] * y)
+        terms.append((tm['c'], lambda: y, lambda c=tm['c']: c * y))
     for k in range(2):
         c = tm['B'][k]
         if c:
-            e = add(e, z[k] if c == 1 else c * z[k])
-    if e is None:
+            terms.append((c, lambda k=k: z[k], lambda c=c, k=k: c * z[k]))
+    if not terms:
         return float(tm['b'])
-    if tm['b']:
+    e = float(tm['b']) if (cfirst and tm['b']) else None
+    for c, bare, scaled in terms:
+        if c == 1:
+            e = bare() if e is None else e + bare()
+        elif c == -1:
+            e = -bare() if e is None else e - bare()
+        else:
+            e = scaled() if e is None else e + scaled()
+    if tm['b'] and not cfirst:
         e = e + tm['b']
     return e
 
 
-def side_vec(tms, h):
+def side_vec(tms, h, cfirst=False):
     """Whole-array spelling: matrix products on the variable arrays.  One template -> a scalar
     expression written with dot products; two templates -> a 2-row array expression."""
     x, y, z = h['x'], h['y'], h['z']
+
+    def add(e, t):
+        return t if e is None else e + t
+
     if len(tms) == 1:
         tm = tms[0]
         if not _has_vars(tm):
             return float(tm['b'])
-        e = None
-
-        def add(e, t):
-            return t if e is None else e + t
-
         a = np.array(tm['a'], dtype=float)
         A = np.array(tm['A'], dtype=float)          # A[i][k]: coefficient of z_k x_i
         B = np.array(tm['B'], dtype=float)
+        e = float(tm['b']) if (cfirst and tm['b']) else None
         if a.any():
             e = add(e, a @ x)
         if A.any():
@@ -88,7 +95,7 @@ def side_vec(tms, h):
             e = add(e, tm['c'] * y)
         if B.any():
             e = add(e, B @ z)
-        if tm['b']:
+        if tm['b'] and not cfirst:
             e = e + tm['b']
         return e
     b = np.array([t['b'] for t in tms], dtype=float)
@@ -97,11 +104,7 @@ def side_vec(tms, h):
     a = np.array([t['a'] for t in tms], dtype=float)             # (rows, 2)
     B = np.array([t['B'] for t in tms], dtype=float)
     c = np.array([t['c'] for t in tms], dtype=float)
-    e = None
-
-    def add(e, t):
-        return t if e is None else e + t
-
+    e = b if (cfirst and b.any()) else None
     if a.any():
         e = add(e, a @ x)
     for j in range(2):
@@ -112,17 +115,18 @@ def side_vec(tms, h):
         e = add(e, c * y)
     if B.any():
         e = add(e, B @ z)
-    if b.any():
+    if b.any() and not cfirst:
         e = e + b
     return e
 
 
 def render_cmp(st, h):
     """The comparison object of a "cmp" statement."""
+    cf = st['cfirst']
     if st['style'] == 'vec':
-        L, R = side_vec(st['l'], h), side_vec(st['r'], h)
+        L, R = side_vec(st['l'], h, cf), side_vec(st['r'], h, cf)
     else:
-        L, R = side_loop(st['l'][0], h), side_loop(st['r'][0], h)
+        L, R = side_loop(st['l'][0], h, cf), side_loop(st['r'][0], h, cf)
     if st['neg']:
         L, R = -L, -R
     if st['num'] != st['den']:
